@@ -17,11 +17,12 @@ The Python subset is deliberately tiny:
     `if not are_mods_equal(self.get_internal_mods_by_index(k), other.get_internal_mods_by_index(k)): return False`;
   * `if p is None and q is not None: return <bool>` tables, an optional `if len(p) != len(q): return False`, and
     `return Counter(p) == Counter(q)` (multiset equality `msEq`) or `return set(p) == set(q)` (`setEq`);
-  * `return any([self.has_a(), ...])` with every `has_a` being `return self._a is not None`;
+  * `return any([self.has_a(), ...])` with every `has_a` being `return self._a is not None`, or
+    `return any(getattr(self, name) is not None for name in T)` with `T` a literal tuple of field names (or a module-level one);
   * a dict literal `"name": self.prop`, a dict comprehension over its `.items()` with ONE filter (`v is not None` or `v`), the
     `if self.internal_mods[ is not None]: for index, mods in self.internal_mods.items(): result[index] = mods` loop, `return
     [copy.deepcopy(]result[)]`;
-  * `if inplace: self.<prop> = None ...; return None` and `return ProFormaAnnotation(_sequence=self.sequence)`.
+  * `if inplace: self.<prop> = None ...; return None` (also `for name in T: setattr(self, name, None)`) and `return ProFormaAnnotation(_sequence=self.sequence)`.
 Anything else makes THAT function `untranslated`: no definition and no theorem for it; the hand model stays tied by correspondence
 only. The translator never raises.
 """
@@ -294,11 +295,40 @@ def has_pred(cls, name):
     raise Untranslatable(f'{name} is not `return self._x is not None`')
 
 
-def tr_has_mods(cls):
+def name_list(e, consts):
+    """a literal tuple/list of field names, or the name of a module-level one -> [lean field]"""
+    if isinstance(e, ast.Name) and e.id in consts:
+        names = consts[e.id]
+    elif isinstance(e, (ast.Tuple, ast.List)) and all(isinstance(x, ast.Constant) and isinstance(x.value, str) for x in e.elts):
+        names = [x.value for x in e.elts]
+    else:
+        raise Untranslatable('not a literal tuple of field names: ' + ast.unparse(e)[:40])
+    out = []
+    for n in names:
+        if n not in ANN_F or ANN_F[n] == 'seq':
+            raise Untranslatable('unknown field name ' + n)
+        out.append(ANN_F[n])
+    return out
+
+
+def tr_has_mods(cls, consts=None):
+    consts = consts or {}
     b = body_of(cls['has_mods'])
     if len(b) != 1 or not isinstance(b[0], ast.Return):
         raise Untranslatable('body')
     c = b[0].value
+    # any(getattr(self, name) is not None for name in <tuple of field names>)
+    if isinstance(c, ast.Call) and isinstance(c.func, ast.Name) and c.func.id == 'any' and len(c.args) == 1 and \
+            isinstance(c.args[0], (ast.GeneratorExp, ast.ListComp)):
+        g = c.args[0]
+        if len(g.generators) == 1 and not g.generators[0].ifs and isinstance(g.generators[0].target, ast.Name):
+            v = g.generators[0].target.id
+            if ast.unparse(g.elt).replace(' ', '') == f'getattr(self,{v})isnotNone':
+                fields = name_list(g.generators[0].iter, consts)
+                if not fields:
+                    raise Untranslatable('empty field tuple')
+                return 'def has_mods (a : Annotation) : Bool :=\n  ' + ' || '.join(f'a.{f}.isSome' for f in fields) + '\n'
+        raise Untranslatable('generator form of any(...)')
     if not (isinstance(c, ast.Call) and isinstance(c.func, ast.Name) and c.func.id == 'any' and len(c.args) == 1 and
             isinstance(c.args[0], (ast.List, ast.Tuple))):
         raise Untranslatable('not any([...])')
@@ -383,7 +413,8 @@ def tr_mod_dict(cls):
     return 'def mod_dict (a : Annotation) : ModDict :=\n  ' + ' ++\n  '.join(segs + ['idxSeg a.internal']) + '\n'
 
 
-def tr_strip(cls):
+def tr_strip(cls, consts=None):
+    consts = consts or {}
     stmts = body_of(cls['strip'])
     if len(stmts) != 2 or not isinstance(stmts[0], ast.If) or stmts[0].orelse or \
             ast.unparse(stmts[0].test).replace(' ', '') not in ('inplace', 'inplaceisTrue'):
@@ -399,6 +430,9 @@ def tr_strip(cls):
                 st.targets[0].attr in ANN_F and isinstance(st.value, ast.Constant) and st.value.value is None and \
                 ANN_F[st.targets[0].attr] != 'seq':
             cleared.append(ANN_F[st.targets[0].attr])
+        elif isinstance(st, ast.For) and not st.orelse and isinstance(st.target, ast.Name) and len(st.body) == 1 and \
+                ast.unparse(st.body[0]).replace(' ', '') == f'setattr(self,{st.target.id},None)':
+            cleared += name_list(st.iter, consts)      # for name in <tuple of field names>: setattr(self, name, None)
         else:
             raise Untranslatable('statement in the in-place branch: ' + ast.unparse(st)[:50])
     r = ast.unparse(stmts[1]).replace(' ', '')
@@ -418,6 +452,10 @@ def read_sources(repo):
     for fn in ('proforma_dataclasses.py', 'proforma_parser.py'):
         tree = ast.parse(open(os.path.join(repo, 'src', 'peptacular', 'proforma', fn)).read())
         for n in tree.body:
+            if isinstance(n, ast.Assign) and len(n.targets) == 1 and isinstance(n.targets[0], ast.Name) and \
+                    isinstance(n.value, (ast.Tuple, ast.List)) and n.value.elts and \
+                    all(isinstance(e, ast.Constant) and isinstance(e.value, str) for e in n.value.elts):
+                out.setdefault('#consts', {})[n.targets[0].id] = [e.value for e in n.value.elts]
             if isinstance(n, ast.FunctionDef):
                 out.setdefault(n.name, n)
             elif isinstance(n, ast.ClassDef) and n.name in ('Mod', 'Interval', 'ProFormaAnnotation'):
@@ -466,9 +504,9 @@ def emit(src, skip):
                                                       ('are_mods_equal', 'are_intervals_equal'), 'Ann'),
                                                 {'are_mods_equal': ref('are_mods_equal'),
                                                  'are_intervals_equal': ref('are_intervals_equal')}))
-    attempt('has_mods', lambda: tr_has_mods(src['ProFormaAnnotation']))
+    attempt('has_mods', lambda: tr_has_mods(src['ProFormaAnnotation'], src.get('#consts', {})))
     attempt('mod_dict', lambda: tr_mod_dict(src['ProFormaAnnotation']))
-    attempt('strip', lambda: tr_strip(src['ProFormaAnnotation']))
+    attempt('strip', lambda: tr_strip(src['ProFormaAnnotation'], src.get('#consts', {})))
     done = [n for n in TARGETS if n in defs and n not in unt]
     text = HEADER + '\n'.join(f'/-- `{PY_NAME[n]}` as read from the source -/\n' + defs[n] for n in done) + '\nend GenEq\n'
     return text, unt, done
@@ -493,7 +531,8 @@ def assemble_props(done, unt):
                     body = re.sub(r',?\s*%s_eq\b' % c, '', body)
             parts.append(body)
         else:
-            parts.append(f'-- {PY_NAME[n]}: not translated ({unt.get(n, "no template")}); the hand model is tied by correspondence only\n\n')
+            why = re.sub(r'\s+', ' ', str(unt.get(n, 'no template'))).replace('-/', '- /')[:160]
+            parts.append(f'-- {PY_NAME[n]}: not translated ({why}); the hand model is tied by correspondence only\n\n')
     parts.append('end GenEq\n')
     return ''.join(parts)
 
